@@ -6,8 +6,8 @@ import Mathlib.Tactic.Positivity
 
 namespace Paranoid
 
-theorem divmodRounded_ok (a b : Int) (hb : b ≠ 0) : ∃ r, divmodRounded a b = .ok r := by
-  unfold divmodRounded
+theorem divmodRounded_ok (a b : Int) (hb : b ≠ 0) : ∃ r, divmodRoundedR a b = .ok r := by
+  unfold divmodRoundedR
   rw [if_neg hb]
   exact ⟨_, rfl⟩
 
